@@ -304,6 +304,32 @@ def rule_decfit(facts):
     return r
 
 
+def rule_tablefn(facts):
+    """Table functions that compute with SQL integers (generate_series: curr += step) are not registry rows with a kernel closure, so the
+    instantiation walk does not reach them; their bodies are examined directly with the same classification."""
+    r = RuleResult("C12-TABLEFN", "no raw / discarded-checked integer arithmetic on SQL values in the built-in table functions", floor=3)
+    TF = "glaredb_core::functions::table::builtin::"
+    for rec in facts.fns_matching(lambda i: (i.startswith(TF) or ("<" + TF) in i) and "::tests::" not in i):
+        if not any(t.strip() in SQL_INTS for t in rec["locals"]):
+            continue
+        r.functions.add(rec["id"])
+        sites = []
+        for c, ln, d, ops, site in kernel_sites(rec):
+            if c.split("::")[0] in ("usize", "isize"):
+                continue
+            ex = exemption(rec, c, ops, site)
+            if ex:
+                r.exempt(f"{rec['id']} {c}", ex)
+                continue
+            sites.append((c, ln, d))
+        r.inst({"fn": rec["id"], "raw_sites": len(sites)}, not sites)
+        for c, ln, d in sites:
+            r.violate(rec["id"], c, f"{d if 'checked' in d or 'assert' in d else 'raw integer operator ' + d} on SQL values in a table function: overflow panics in a worker "
+                      "(aborting the process) or wraps instead of ending the series / raising an error", rec["file"], ln)
+    return r
+
+
+
 def run(ctx):
     facts = ctx["facts"]
     consts = {c["id"]: c for c in facts.records("const")}
@@ -357,7 +383,7 @@ def run(ctx):
     # decimal + - and comparisons bring both operands to the common decimal type; the kernel then adds the raw integers.
     # An operand that keeps a different scale is added as if it had the common scale: a silently wrong sum.
     deccast = rule_elide(facts, rule="C12-DECCAST", only=lambda fid: "::functions::" in fid, floor=6)
-    return [r, rule_errpath(facts, db, int_rows), rule_errstate(facts), rule_decfit(facts), deccast]
+    return [r, rule_errpath(facts, db, int_rows), rule_errstate(facts), rule_decfit(facts), deccast, rule_tablefn(facts)]
 
 
 CLAIM = {
